@@ -1,4 +1,5 @@
 pub mod c04;
+pub mod c06;
 pub mod c14;
 pub mod c15;
 pub mod c16;
